@@ -27,6 +27,7 @@ def main(tier, seed):
         for p in npats:
             items.append(('C03', 'C03.lang.fnmatch', p, fl, False, 'hidden', chk.known))
     c1, s1 = LC.run_items(chk, LC.fn_item, items)
+    fixed_nodotdir(chk)
     ppats = patsets.path_patterns(tier)
     pitems = []
     for fs, fl in PATH_FLAGS.items():
@@ -55,3 +56,26 @@ def main(tier, seed):
         explanation=('glue obligations discharged for all inputs; per-pattern obligation on the hidden domain: must <= Lang(impl) <= may where must grants a '
                      'leading dot only to a written `.` with nothing empty-able before it and may to any written `.`; bounded in the pattern, exact in the name.'),
         trusted_base=['vlib/relang.py', 'vlib/spec/den.py', 'vlib/pyvc.py', 're._parser', 'z3'])
+
+
+def fixed_nodotdir(chk):
+    """A fixed family that HOLDS on the pinned tree and lies inside the signature of a known finding (group + dot), so it is stated as its own
+    obligation: under NODOTDIR (and under DOTGLOB) a dot at the start of an alternative that is followed by a wildcard or a second dot never
+    matches the directories `.` / `..`; the literal alternatives `.` and `..` themselves are the known finding and are not part of this family."""
+    from vlib.common import REPO
+    G = LC.G
+    pats = ['@(.*)', '@(a|.*)', '+(.?)', '@(..*)', '?(.*)b', '*(.?|a)', 'd/@(.*)', '@(.*)/a', '@(.[.a])']
+    n = 0
+    for fl, nm in ((G.E | G.Z, 'EXTGLOB|NODOTDIR'), (G.E | G.Z | G.D, 'EXTGLOB|NODOTDIR|DOTGLOB')):      # (without NODOTDIR a pattern starting with a written dot may match them)
+        for p in pats:
+            for name in ('.', '..', './', '../'):
+                for cand in ((name,) if '/' not in p else (name,)):
+                    target = cand if '/' not in p.strip('/') or p.startswith('@') and p.endswith(')') else None
+                    full = {'d/@(.*)': 'd/' + name, '@(.*)/a': name.rstrip('/') + '/a'}.get(p, name)
+                    n += 1
+                    chk.case(key=('nodotdir-group', p, nm, full))
+                    if G.globmatch(full, p, flags=fl | G.U):
+                        chk.violation(dict(obligation='C03.fixed.dot_followed_by_a_wildcard_inside_a_group_never_matches_the_dot_directories', pattern=p, fl=nm, witness=full),
+                                      f'globmatch({full!r}, {p!r}, {nm}) is True: a wildcard construct matched the directory {name!r}',
+                                      f"import sys; sys.path.insert(0, {REPO!r})\nfrom wcmatch import glob\ngot = glob.globmatch({full!r}, {p!r}, flags={fl | G.U})\nprint(got)\nsys.exit(1 if got else 0)\n")
+    chk.bounds['c03_fixed_nodotdir_cases'] = n
